@@ -232,6 +232,40 @@ def run(tier):
                         if global_config.high_compat_mode:
                             chk.fail('context:flag-leaks', case, 'flag still on')
                             global_config.high_compat_mode = False
+        # (c3) whole specifications that respect every restriction, built and written inside the mode: must be
+        # accepted, and the decoded file must satisfy the restrictions (names, units, file set numbers 1..n)
+        from harness import wholefile as wf, content
+        import re as _re
+        specs = list(wf.generate('C17', tier, 60, 600, stream='hc-valid', hc=True))
+        runs = wf.execute(specs, model, bres, chk, stream='hc-valid')
+        for r in runs:
+            chk.case('hc-valid-files', nontrivial_key=('hcv', r.index) if r.res['status'] == 'ok' else None,
+                     sample=wf.sample_of(r))
+            if global_config.high_compat_mode:
+                chk.fail('context:flag-leaks', r.case, 'flag still on after an HC write')
+                global_config.high_compat_mode = False
+            if r.res['status'] != 'ok':
+                chk.fail('aspect:valid-rejected-in-mode:whole-file', r.case, f'a specification respecting every restriction was '
+                                                                             f'rejected inside the mode: {r.res["error"]} ({r.res["stage"]})')
+                continue
+            if not bres.ok or not wf.oracle_readable(r, chk, 'c17'):
+                continue
+            wf.oracle_fidelity(r, chk)
+            pat = _re.compile(r'[A-Z0-9_-]+')
+            for recs_lf in r.lfs:
+                fsn = []
+                for x in recs_lf:
+                    if not x['eflr'] or x.get('undecodable') or x['set_type'] == 'FILE-HEADER':
+                        continue
+                    labs = [t['label'] for t in x['template']]
+                    for o in x['objects']:
+                        if not pat.fullmatch(o['name']):
+                            chk.fail('aspect:not-enforced:object-name', r.case, f'object name {o["name"]!r} written inside the mode')
+                        a = dict(zip(labs, o['attrs']))
+                        if x['set_type'] == 'ORIGIN' and a.get('FILE-SET-NUMBER'):
+                            fsn.append(int(a['FILE-SET-NUMBER']['vals'][0][1:]))
+                if fsn and fsn != list(range(1, len(fsn) + 1)) and len(set(o_['set_name'] for o_ in [y for y in recs_lf if y['eflr'] and y.get('set_type') == 'ORIGIN'])) == 1:
+                    chk.fail('file-set-number:not-sequential', r.case, f'default file set numbers written inside the mode: {fsn}')
         # (d) default file set numbers in the mode are 1..n
         def fsn():
             with high_compatibility_mode():
